@@ -394,7 +394,10 @@ impl SrcCore {
                 let n = k.min(avail).min(buf.len());
                 buf[..n].copy_from_slice(&self.data[self.pos..self.pos + n]);
                 if self.scribble {
-                    for b in buf[n..].iter_mut() {
+                    // the start of the unfilled part is where a reader would look first; scribbling megabytes on every
+                    // call would only burn time
+                    let end = buf.len().min(n + 4096);
+                    for b in buf[n..end].iter_mut() {
                         *b = 0xDD;
                     }
                     obs.fault(fk::scribble_unfilled);
@@ -428,6 +431,8 @@ pub struct SimSource(pub Rc<RefCell<SrcCore>>);
 
 impl io::Read for SimSource {
     fn read(&mut self, buf: &mut [u8]) -> io::Result<usize> {
+        // whatever the stub allocates (error values, logs) is the simulator's, not the reader's
+        let _quiet = crate::alloc::pause();
         match self.0.borrow_mut().serve(buf, false) {
             Some(r) => r,
             None => unreachable!("blocking source never returns Pending"),
@@ -437,6 +442,7 @@ impl io::Read for SimSource {
     /// with `exact_override` -- an all-or-nothing version that gathers into a scratch buffer through the same lane
     /// (short reads, EINTR retried) and touches the caller's buffer only on success.
     fn read_exact(&mut self, buf: &mut [u8]) -> io::Result<()> {
+        let _quiet = crate::alloc::pause();
         let all_or_nothing = self.0.borrow().exact_override;
         if !all_or_nothing {
             let mut rest: &mut [u8] = buf;
@@ -473,6 +479,7 @@ impl io::Read for SimSource {
     }
     /// A device with a native scatter read.
     fn read_vectored(&mut self, bufs: &mut [io::IoSliceMut<'_>]) -> io::Result<usize> {
+        let _quiet = crate::alloc::pause();
         let total: usize = bufs.iter().map(|b| b.len()).sum();
         let mut tmp = vec![0u8; total];
         let mut core = self.0.borrow_mut();
